@@ -57,7 +57,7 @@ def run_shard(binary, test, checks, seed, outpath, timeout_s, extra_env, cwd):
     env = goenv(extra_env)
     env["VERIF_OUT"] = outpath
     cmd = [binary, "-test.run", f"^({test})$", f"-rapid.checks={checks}", f"-rapid.seed={seed}",
-           "-rapid.nofailfile", "-rapid.shrinktime=20s", f"-test.timeout={timeout_s}s", "-test.count=1"]
+           "-rapid.nofailfile", "-rapid.shrinktime=60s", f"-test.timeout={timeout_s}s", "-test.count=1"]
     t0 = time.time()
     try:
         p = subprocess.run(cmd, cwd=cwd, env=env, capture_output=True, text=True, timeout=timeout_s + 60, errors="replace")
